@@ -78,7 +78,7 @@ def text_only_for_ascii_formats():
 
 
 @lemma("C09", bounds="packages of 0..2 modules drawn from 8 builder templates (calls, nested regions, CFG, constants, tracked circuit, non-ASCII "
-                     "names/metadata) and 0..2 extensions; compression None or a symbolic level in {-5,0,1,3,22} (quick) / -5..22 (thorough), realised at the zstd boundary; second module fixed in quick; "
+                     "names/metadata) and 0..2 extensions (distinct names or one name twice); compression None or a symbolic level in {-5,0,1,3,22} (quick) / -5..22 (thorough), realised at the zstd boundary; second module fixed in quick; "
                      "bytes and text encodings", outside="MODULE / MODULE_WITH_EXTS payloads (need the native hugr._hugr, absent offline)",
        opts={"max_paths": 100000, "timeout_s": 1500})
 def package_roundtrip():
@@ -89,7 +89,9 @@ def package_roundtrip():
     mods = [programs.MODULES[sym.concretize(sym.int(f"m{j}", 0, len(programs.MODULES) - 1)) if (j == 0 or P(False, True)) else 6]().hugr
             for j in range(nm)]
     ne = sym.concretize(sym.int("extensions", 0, 2))
-    exts = [programs.extension_small(f"ext{j}.ünï", with_binary=(j == 1)) for j in range(ne)]
+    # (the second extension may carry the SAME name as the first - the same id listed twice with different contents)
+    same_name = ne == 2 and sym.concretize(sym.bool("extensions_share_a_name"))
+    exts = [programs.extension_small("ext0.ünï" if same_name else f"ext{j}.ünï", with_binary=(j == 1)) for j in range(ne)]
     pkg = Package(mods, exts)
     if sym.concretize(sym.bool("compressed")):
         level = sym.int("level", -5, 22)
